@@ -394,3 +394,21 @@ class ConstEval:
                 continue
             return UNKNOWN
         return None
+
+
+def axis_num_mapping(repo):
+    """{'sample': n, 'observation': m} as Table._axis_to_num computes it,
+    by evaluating the function for both axis names (any if/else shape)."""
+    try:
+        f = repo.func('biom/table.py', 'Table._axis_to_num')
+    except Exception:
+        return {}
+    ce = ConstEval(repo)
+    params = [a.arg for a in f.args.args if a.arg not in ('self', 'cls')]
+    out = {}
+    for name in ('sample', 'observation'):
+        r = ce.run_body(f.body, 'biom/table.py', {params[0]: name}) \
+            if params else UNKNOWN
+        if r is not UNKNOWN and r is not _FALLTHROUGH and isinstance(r, int):
+            out[name] = r
+    return out
